@@ -154,6 +154,8 @@ class Tokenizer:
                     break
             elif tok.type == Token.NEWLINE:
                 if not is_indented:
+                    if lines and tok.start[0] not in lines:
+                        lines[tok.start[0]] = tok.line  # the last line of a string that began on an earlier line
                     break
                 elif not tok.string:
                     # empty new line added by the tokenizer
@@ -163,7 +165,11 @@ class Tokenizer:
                 body_started = True
             # update captured lines
             if tok.start[0] not in lines:
-                lines[tok.start[0]] = tok.line if block else tok.line[tok.start[1] :]
+                lines[tok.start[0]] = tok.line if (block or lines) else tok.line[tok.start[1] :]
+            if tok.end[0] - tok.start[0] > 1:
+                # a string spanning three or more lines: the lines strictly inside it belong to the body too
+                for offset, text in enumerate(tok.string.split("\n")[1:-1], 1):
+                    lines.setdefault(tok.start[0] + offset, text + "\n")
 
         string = "".join(lines.values())
         if is_indented:
